@@ -25,15 +25,10 @@ def sh(cmd, **kw):
     return r.returncode, r.stdout
 
 
-def main(argv):
-    props = [a for a in argv if a.startswith("C") and len(a) == 3]
-    only = argv[argv.index("--only") + 1] if "--only" in argv else None
-    run_tests = "--tests" in argv
-    out_json = argv[argv.index("--json") + 1] if "--json" in argv else None
-    if not props:
-        props = sorted(d for d in os.listdir(ST) if os.path.isdir(os.path.join(ST, d)))
-    wt = tempfile.mkdtemp(prefix="okself-")
-    ev = tempfile.mkdtemp(prefix="okself-ev-")
+def run_props(props, only, run_tests, verbose, idx=0):
+    """one scratch worktree for this group of properties; returns (results, mismatches, printed lines)"""
+    wt = tempfile.mkdtemp(prefix="okself%d-" % idx)
+    ev = tempfile.mkdtemp(prefix="okself-ev%d-" % idx)
     os.rmdir(wt)
     results = []
     bad = 0
@@ -88,14 +83,39 @@ def main(argv):
                     bad += 1
                 results.append(rec)
                 print("%s %-34s fired=%-5s expected=%-5s %s %s" % (p, name, fired, rec["expect_fires"], rec["status"], rec.get("tests", "")))
-                if not okx or "-v" in argv:
+                if not okx or verbose:
                     for l in lines[:6]:
                         print("      " + l[:230])
+                sys.stdout.flush()
     finally:
         subprocess.run(["git", "-C", "/repo", "worktree", "remove", "--force", wt], stdout=subprocess.DEVNULL, stderr=subprocess.DEVNULL)
         shutil.rmtree(wt, ignore_errors=True)
         shutil.rmtree(ev, ignore_errors=True)
-        subprocess.run(["git", "-C", "/repo", "worktree", "prune"], stdout=subprocess.DEVNULL)
+    return results, bad
+
+
+def main(argv):
+    props = [a for a in argv if a.startswith("C") and len(a) == 3]
+    only = argv[argv.index("--only") + 1] if "--only" in argv else None
+    run_tests = "--tests" in argv
+    out_json = argv[argv.index("--json") + 1] if "--json" in argv else None
+    jobs = int(argv[argv.index("--jobs") + 1]) if "--jobs" in argv else 1
+    if not props:
+        props = sorted(d for d in os.listdir(ST) if os.path.isdir(os.path.join(ST, d)))
+    results = []
+    bad = 0
+    if jobs <= 1 or len(props) == 1:
+        results, bad = run_props(props, only, run_tests, "-v" in argv)
+    else:
+        from concurrent.futures import ThreadPoolExecutor
+        groups = [props[i::jobs] for i in range(jobs)]
+        with ThreadPoolExecutor(max_workers=jobs) as ex:
+            futs = [ex.submit(run_props, g, only, run_tests, "-v" in argv, i) for i, g in enumerate(groups) if g]
+            for f in futs:
+                r, b = f.result()
+                results += r
+                bad += b
+    subprocess.run(["git", "-C", "/repo", "worktree", "prune"], stdout=subprocess.DEVNULL)
     if out_json:
         json.dump(results, open(out_json, "w"), indent=1)
     print("selftest: %d mutants, %d mismatches" % (len(results), bad))
